@@ -46,6 +46,13 @@ def gen(rng, tier):
         if tier == "quick" and len(got) > 1500:
             got = got[:: len(got) // 1500 + 1]
         cs += got
+    # the same bytes through every way of building a fixed-length container (slice, by value, locked, read-only locked)
+    for n in (16, 24, 32, 64):
+        for k in range(6):
+            p = rbytes(rng, n)
+            for cont in ("stack", "heap", "heapval", "locked", "lockedro"):
+                if cont == "stack" or n != 24 or cont in ("heapval", "locked", "lockedro"):
+                    cs.append(Case("tryfrom %s %d %s" % (cont, n, hx(p)), cls="container-build/" + cont, expect="ok " + hx(p)))
     # sealed-box nonces and boxes, object API over containers
     for n in range(0, 40):
         key, nonce, msg = rbytes(rng, 32), rbytes(rng, 24), rbytes(rng, n)
